@@ -371,6 +371,76 @@ theorem pipeline_total (m : Mode) (units : List (UnitHdr × List Entry)) (ras : 
   simp only [run, hb, hr, hres]
   cases convertUnits _ units ras <;> rfl
 
+/-- **`run_correct`** — the whole Model pipeline (`run`: filter pass, `get_reachable`, reservation
+by unit, conversion with skipping) on a well-formed section whose entries lie below the root and
+never share an offset with a unit root: the outcome is never a panic or fuel exhaustion; it is
+either a `ConvertError` raised by reference resolution, or `converted parts us` where
+`parts` are exactly the closure offsets of each unit (the least set containing the required entries
+and closed under parent / reference / member-like child of a non-namespace entry, sorted) and `us`
+lists, per unit, exactly those entries in read order, each with the parent it has in the input
+(the unit root for top-level entries). For ALL forests, reference graphs, required sets, modes. -/
+theorem run_correct (m : Mode) (units : List (UnitHdr × List Entry)) (ras : List (List AttrRef))
+    (wf : WellFormed units)
+    (hdepth : ∀ ue, ue ∈ units → ∀ e, e ∈ ue.2 → 0 < e.depth)
+    (hroot : ∀ r, r ∈ records units → ∀ ue, ue ∈ units → r.off ≠ ue.1.rootOff) :
+    ∃ out : List Off, (∀ x, x ∈ out ↔ Closure (records units) x) ∧ out.Pairwise (· < ·) ∧
+      ((∃ e, run m units ras = .convErr e) ∨
+       run m units ras =
+        .converted ((units.map (·.1)).map (fun u => out.filter u.containsOff))
+          (units.map (fun ue => filterLinks
+            (units.map (·.1.rootOff) ++ ((units.map (·.1)).map (fun u => out.filter u.containsOff)).flatten)
+            ue.1 [] ue.2))) := by
+  obtain ⟨d, out, hb, hr, hE, _, hrun⟩ := pipeline_total m units ras wf
+  refine ⟨out, hE, (reachable_nodup_sorted d out hr).2.2, ?_⟩
+  rw [hrun]
+  generalize hids : (units.map (·.1.rootOff) ++
+    ((units.map (·.1)).map (fun u => out.filter u.containsOff)).flatten) = ids
+  cases hc : convertUnits ids units ras with
+  | error e => exact Or.inl ⟨e, rfl⟩
+  | ok us =>
+    right
+    simp only
+    congr 1
+    apply convertUnits_links ids units ras us _ hc
+    -- membership in the id table, for offsets of entries
+    have hcover : ∀ o, o ∈ out → ∃ u, u ∈ units.map (·.1) ∧ u.containsOff o = true := by
+      intro o ho
+      obtain ⟨r, hrec, hoff⟩ := ((hE o).1 ho).valid'
+      obtain ⟨ue, hue, hu, he⟩ := records_mem units r hrec
+      refine ⟨ue.1, List.mem_map_of_mem hue, ?_⟩
+      rw [← hoff, Rec.off, hu]
+      exact containsOff_entry ue.1 r.e.off (wf.inside ue hue r.e he)
+    have hflat : ∀ x, x ∈ ((units.map (·.1)).map (fun u => out.filter u.containsOff)).flatten ↔ x ∈ out := by
+      intro x
+      rw [List.mem_flatten]
+      constructor
+      · rintro ⟨l, hl, hx⟩
+        obtain ⟨u, _, hl⟩ := List.mem_map.1 hl
+        subst hl
+        exact (List.mem_filter.1 hx).1
+      · intro hx
+        obtain ⟨u, hu, hc⟩ := hcover x hx
+        exact ⟨_, List.mem_map.2 ⟨u, hu, rfl⟩, List.mem_filter.2 ⟨hx, hc⟩⟩
+    obtain ⟨_, C2, _, _, _⟩ := closure_props m units d out hb hr wf.distinct
+    intro ue hue
+    refine ⟨hdepth ue hue, ?_⟩
+    intro ep hep hin p hp
+    -- the record of this entry
+    have hrec : (⟨ue.1, ep.1, ep.2⟩ : Rec) ∈ records units := by
+      simp only [records, List.mem_flatMap]
+      exact ⟨ue, hue, by simp only [unitRecs, List.mem_map]; exact ⟨ep, hep, rfl⟩⟩
+    have hkept : ue.1.base + ep.1.off ∈ out := by
+      rw [← hids] at hin
+      simp only [List.contains_iff_mem, List.mem_append, List.mem_map] at hin
+      rcases hin with ⟨ve, hve, hroot'⟩ | hin
+      · exact (hroot _ hrec ve hve hroot'.symm).elim
+      · exact (hflat _).1 hin
+    have hpar : ue.1.base + p.off ∈ out :=
+      C2 ⟨ue.1, ep.1, ep.2⟩ hrec hkept (ue.1.base + p.off) (by simp only [Rec.parentOff, hp])
+    rw [← hids]
+    simp only [List.contains_iff_mem, List.mem_append]
+    exact Or.inr ((hflat _).2 hpar)
+
 /-! ## the tag tables regenerated from the Rust source -/
 
 /-- the extractor understood `has_die_back_edge` and the `read_entry` condition -/
@@ -482,6 +552,10 @@ example : run .debug exForest =
     .converted [[15, 23, 31], [65]] [[(15, some 11), (23, some 15), (31, some 23)], [(65, some 61)]] := by
   decide
 example : (buildDeps .release exForest).isOk = true := by decide
+/-- … and of `run_correct` -/
+example : ∀ r, r ∈ records exForest → ∀ ue, ue ∈ exForest → r.off ≠ ue.1.rootOff := by decide
+example : ∀ ue, ue ∈ exForest → ∀ e, e ∈ ue.2 → 0 < e.depth := by decide
+
 example : WellFormed exForest := ⟨by unfold Distinct; decide, by decide, by decide⟩
 /-- … and `partition_by_unit`'s hypotheses hold for the example's units and result -/
 example : [(⟨0, 11, 36⟩ : UnitHdr), ⟨50, 11, 20⟩].Pairwise (fun u v => u.endOff ≤ v.base) := by decide
